@@ -169,6 +169,13 @@ def _registry():
         lambda f, a: f(a['array'], 0.75))
     reg('gaussian_filter1d', C + 'gaussian_filter1d', lambda g: dict(array=g.fl(g.shape(g.nd((1, 2, 2)), 3))),
         lambda f, a: f(a['array'], 0.75, 0))
+    # the same sigma with other derivative orders (hidden per-sigma state would make these depend on earlier calls)
+    reg('gaussian_filter_order1', C + 'gaussian_filter', lambda g: dict(array=g.fl(g.shape(g.nd((1, 2, 2, 3)), 3))),
+        lambda f, a: f(a['array'], 0.75, order=1))
+    reg('gaussian_filter_mixed', C + 'gaussian_filter', lambda g: dict(array=g.fl(g.shape(2, 3))),
+        lambda f, a: f(a['array'], 0.75, order=(0, 1)))
+    reg('gaussian_filter1d_order2', C + 'gaussian_filter1d', lambda g: dict(array=g.fl(g.shape(g.nd((1, 2, 2)), 3))),
+        lambda f, a: f(a['array'], 0.75, 0, order=2))
     reg('laplacian_2D', C + 'laplacian_2D', lambda g: dict(array=g.fl(g.shape(2, 3))), lambda f, a: f(a['array']))
 
     def filt_gen(g):
@@ -178,6 +185,12 @@ def _registry():
     reg('rank_filter', C + 'rank_filter', filt_gen, lambda f, a: f(a['f'], a['Bc'], 0))
     reg('mean_filter', C + 'mean_filter', filt_gen, lambda f, a: f(a['f'], a['Bc']))
     reg('template_match', C + 'template_match', lambda g: dict(f=g.fl(g.shape(2, 3)), template=g.fl((2, 2), 0, 3)),
+        lambda f, a: f(a['f'], a['template']))
+
+    # a template whose dtype differs from the image's (the wrapper converts it; the conversion must not keep a layout
+    # the native code cannot read)
+    reg('template_match_dtypes', C + 'template_match',
+        lambda g: dict(f=g.fl(g.shape(2, 3)), template=g.ints((2, 3), 0, 3, g.r.choice([np.int64, np.uint8, np.int32]))),
         lambda f, a: f(a['f'], a['template']))
 
     def find_gen(g):
@@ -928,6 +941,43 @@ def _eval_cover(case):
                 tags=dict(stream='cover', public=len(api), registered=len(covered)))
 
 
+def _fresh_run(cases, pattern=0x33):
+    src = _SRC
+    if src is None:
+        import mahotas
+        src = str(__import__('pathlib').Path(mahotas.__file__).resolve().parent.parent)
+    env = dict(os.environ)
+    env['PYTHONPATH'] = str(core.VERIF)
+    env['PYTHONHASHSEED'] = '0'
+    r = subprocess.run([core.PY, '-m', 'harness.props.c08', '--worker'], input=pickle.dumps(dict(src=src, pattern=pattern, cases=cases)),
+                       stdout=subprocess.PIPE, stderr=subprocess.PIPE, env=env, cwd=str(core.VERIF))
+    if r.returncode != 0:
+        return [('crash', str(r.returncode), r.stderr.decode(errors='replace')[-300:])] * len(cases)
+    return pickle.loads(r.stdout)
+
+
+def _eval_history(case):
+    """repeatable whatever happened before: the call `then` must return the same value in a fresh interpreter and in an
+    interpreter that has just executed the call `first` (another call of the same public function with other parameters
+    or inputs) - hidden module-level state (caches, scratch buffers, lazily built tables) shows as a difference"""
+    a = _fresh_run([case['first'], case['then']])
+    b = _fresh_run([case['then']])
+    fn = case['then']['fn']
+    f = []
+    ra, rb = a[1], b[0]
+    if ra[0] == 'crash' or rb[0] == 'crash':
+        f.append(dict(kind='property', key=_key(fn, 'crash'), detail=dict(after_first=ra[:2], alone=rb[:2])))
+    elif ra[0] == 'ok' and rb[0] == 'ok':
+        why = same(rb[1], ra[1])
+        if why:
+            f.append(dict(kind='property', key=f'{fn}:history-dependent', detail=dict(first=case['first']['fn'], then=fn, why=why)))
+    elif ra[0] != rb[0]:
+        f.append(dict(kind='property', key=f'{fn}:history-dependent', detail=dict(first=case['first']['fn'], then=fn,
+                                                                                   after_first=ra[:3], alone=rb[:3])))
+    return dict(findings=f, nontrivial=True, sig=json.dumps(case, sort_keys=True),
+                tags=dict(stream='history', fn=fn, first=case['first']['fn']))
+
+
 def evaluate(cases):
     out = [None] * len(cases)
     sweep = [(i, c) for i, c in enumerate(cases) if c.get('stream', 'sweep') == 'sweep']
@@ -942,6 +992,8 @@ def evaluate(cases):
     for i, c in enumerate(cases):
         if c.get('stream') == 'cover':
             out[i] = _eval_cover(c)
+        elif c.get('stream') == 'history':
+            out[i] = _eval_history(c)
     return out
 
 
@@ -991,6 +1043,20 @@ def cases(rng, tier):
             for nd in (1, 2, 3):
                 for _ in range(dict(quick=1, thorough=5, search=2)[tier]):
                     out.append(dict(stream='norm', norm=norm, layout=layout, nd=nd, seed=rng.randrange(1 << 30)))
+    # call sequences within one public function: every ordered pair of registry entries that share the function
+    by_path = {}
+    for name in sorted(reg_):
+        by_path.setdefault(reg_[name]['path'], []).append(name)
+    for path, names in sorted(by_path.items()):
+        if len(names) < 2:
+            continue
+        for a in names:
+            for b in names:
+                if a != b:
+                    for _ in range(dict(quick=1, thorough=4, search=1)[tier]):
+                        out.append(dict(stream='history',
+                                        first=dict(stream='sweep', fn=a, seed=rng.randrange(1 << 30), size=5, pos=None, layout='C'),
+                                        then=dict(stream='sweep', fn=b, seed=rng.randrange(1 << 30), size=5, pos=None, layout='C')))
     ninputs = dict(quick=3, thorough=40, search=6)[tier]
     for name in sorted(reg_):
         e = reg_[name]
